@@ -152,13 +152,12 @@ def str_method(x, st, recv, name, pos, kw, node, chain):
                 x.assumptions.add(f"join over a list with unmodelled element kind assumed str: {loader.norm(node)[:60]}")
         return [(st, fresh("str", "join"))]
     if name == "split" or name == "rsplit" or name == "splitlines":
-        lst = HList(None, "str")
-        lst.minlen = 1 if (pos or name == "splitlines") and name != "splitlines" else 0
+        minlen = 1 if (pos and name != "splitlines") else 0
         if x.mode == "value" and pos and pos[0].k == "str" and name != "splitlines":
-            # "".split(sep) raises ValueError for an empty separator
+            # s.split(sep) raises ValueError for an empty separator
             return x.check_v(st, z3.Length(pos[0].t) > 0, "ValueError", node,
-                             lambda s2: [(s2, x.alloc(s2, _mk(lst)))])
-        return [(st, x.alloc(st, lst))]
+                             lambda s2: [(s2, x.alloc(s2, HList(None, "str", minlen)))])
+        return [(st, x.alloc(st, HList(None, "str", minlen)))]
     if name == "format":
         return format_call(x, st, recv, pos, kw, node)
     if name == "encode":
